@@ -6,7 +6,7 @@ use vcore::drive::{prop_par, Verdict};
 use vcore::rt::{self, digest_str, esc, Acc, Args, Report};
 use vcore::sgr::{self, to_style, MColor, MStyle};
 
-const RULE: &str = "Styles: per adapter, every one of the 16 palette + 256 indexed colours and a 9^3 RGB lattice plus every RGB value the xterm-256 / VGA / Win10 palettes name in each colour slot x a covering family of effect sets (none, each single effect, all), all 4096 effect sets x a covering family of colour combinations, and seeded random full styles; syntect: random styles incl. alpha and every font-style subset. Oracles: (value) the converted value == a value built through the target library's public constructors from the harness's own mapping tables; (render) the value rendered by the target library itself, interpreted by the reference SGR interpreter up to a marker character, == the input projected on what that library can express (hue always; brightness for crossterm/owo/yansi, bright foreground = hue + bold for ansi_term; indexed and RGB exact; underline colour for crossterm; the eight classic effects - for crossterm also the four further underline kinds, for termcolor only bold/dim/italic/underline/strikethrough); nothing extra may appear. Non-trivial = a colour in at least one slot and at least one effect (distinct by (adapter, style)).";
+const RULE: &str = "Styles: per adapter, every one of the 16 palette + 256 indexed colours and a 9^3 RGB lattice plus every RGB value the xterm-256 / VGA / Win10 palettes name in each colour slot x a covering family of effect sets (none, each single effect, all), all 4096 effect sets x a covering family of colour combinations, and seeded random full styles; syntect: random styles incl. alpha and every font-style subset. Oracles: (value) the converted value == a value built through the target library's public constructors from the harness's own mapping tables; (render) the value rendered by the target library itself, interpreted by the reference SGR interpreter up to a marker character, == the input projected on what that library can express (hue always; brightness for crossterm/owo/yansi; for ansi_term a bright colour either as hue (+ bold for a foreground) or exactly as Fixed(8+k), for termcolor brightness either dropped or kept through its one `intense` flag where no hue is altered - every such reading is accepted; indexed and RGB exact; underline colour for crossterm; the eight classic effects - for crossterm also the four further underline kinds, for termcolor only bold/dim/italic/underline/strikethrough); nothing extra may appear. Non-trivial = a colour in at least one slot and at least one effect (distinct by (adapter, style)).";
 
 #[derive(Clone, Copy, Debug, PartialEq, Eq, Serialize, Deserialize)]
 enum Adapter {
@@ -34,17 +34,28 @@ fn at_color(c: MColor) -> (ansi_term::Color, bool) {
         MColor::Rgb(r, g, b) => (RGB(r, g, b), false),
     }
 }
-fn expect_ansi_term(m: &MStyle) -> ansi_term::Style {
+/// ansi_term has the eight hues plus `Fixed(n)`: a bright palette colour is either reduced to its
+/// hue (plus bold for a foreground, as the adapter has always done) or kept exactly as `Fixed(8 + k)`.
+/// `alt` bit 0: the foreground is kept as `Fixed`, bit 1: the background. All readings are accepted.
+fn expect_ansi_term(m: &MStyle, alt: u8) -> ansi_term::Style {
     let mut s = ansi_term::Style::new();
     if let Some(c) = m.fg {
-        let (c, bold) = at_color(c);
-        s = s.fg(c);
-        if bold {
-            s = s.bold();
+        match c {
+            MColor::Ansi(k) if k >= 8 && alt & 1 != 0 => s = s.fg(ansi_term::Color::Fixed(k)),
+            _ => {
+                let (c, bold) = at_color(c);
+                s = s.fg(c);
+                if bold {
+                    s = s.bold();
+                }
+            }
         }
     }
     if let Some(c) = m.bg {
-        s = s.on(at_color(c).0);
+        match c {
+            MColor::Ansi(k) if k >= 8 && alt & 2 != 0 => s = s.on(ansi_term::Color::Fixed(k)),
+            _ => s = s.on(at_color(c).0),
+        }
     }
     if has(m, sgr::BOLD) {
         s = s.bold();
@@ -162,8 +173,18 @@ fn tc_color(c: MColor) -> termcolor::Color {
         MColor::Rgb(r, g, b) => Rgb(r, g, b),
     }
 }
-fn expect_termcolor(m: &MStyle) -> termcolor::ColorSpec {
+/// termcolor has ONE `intense` flag for both grounds (it turns the eight named colours into their
+/// bright versions). The adapter may leave it alone (brightness dropped, as it always has) or - the
+/// only way to keep brightness without altering a hue - set it when at least one slot holds a bright
+/// named colour and no slot a normal one. Both are accepted; `intense` on a normal colour is not.
+fn termcolor_can_keep_brightness(m: &MStyle) -> bool {
+    let named: Vec<u8> = [m.fg, m.bg].into_iter().flatten().filter_map(|c| if let MColor::Ansi(k) = c { Some(k) } else { None }).collect();
+    !named.is_empty() && named.iter().all(|k| *k >= 8)
+}
+
+fn expect_termcolor(m: &MStyle, alt: u8) -> termcolor::ColorSpec {
     let mut s = termcolor::ColorSpec::new();
+    s.set_intense(alt != 0);
     s.set_fg(m.fg.map(tc_color));
     s.set_bg(m.bg.map(tc_color));
     s.set_bold(has(m, sgr::BOLD));
@@ -249,7 +270,7 @@ fn interpret(rendered: &str) -> Result<MStyle, String> {
 }
 
 /// the input projected on what the adapter's target can express
-fn projection(a: Adapter, m: &MStyle) -> MStyle {
+fn projection(a: Adapter, m: &MStyle, alt: u8) -> MStyle {
     let hue = |c: MColor| match c {
         MColor::Ansi(k) => MColor::Ansi(k % 8),
         c => c,
@@ -257,11 +278,15 @@ fn projection(a: Adapter, m: &MStyle) -> MStyle {
     let mut p = MStyle { fg: m.fg, bg: m.bg, ul: None, effects: m.effects & CLASSIC };
     match a {
         Adapter::AnsiTerm => {
-            if matches!(m.fg, Some(MColor::Ansi(k)) if k >= 8) {
-                p.effects |= sgr::BOLD;
+            if alt & 1 == 0 {
+                if matches!(m.fg, Some(MColor::Ansi(k)) if k >= 8) {
+                    p.effects |= sgr::BOLD;
+                }
+                p.fg = m.fg.map(hue);
             }
-            p.fg = m.fg.map(hue);
-            p.bg = m.bg.map(hue);
+            if alt & 2 == 0 {
+                p.bg = m.bg.map(hue);
+            }
         }
         Adapter::Crossterm => {
             p.ul = m.ul;
@@ -275,8 +300,10 @@ fn projection(a: Adapter, m: &MStyle) -> MStyle {
         }
         Adapter::Owo | Adapter::Yansi => {}
         Adapter::Termcolor => {
-            p.fg = m.fg.map(hue);
-            p.bg = m.bg.map(hue);
+            if alt == 0 {
+                p.fg = m.fg.map(hue);
+                p.bg = m.bg.map(hue);
+            }
             p.effects &= sgr::BOLD | sgr::DIMMED | sgr::ITALIC | sgr::UNDERLINE | sgr::STRIKETHROUGH;
         }
     }
@@ -337,8 +364,26 @@ fn check(a: Adapter, m: &MStyle) -> Result<bool, String> {
 /// `exclude_known`: leave the class of the open finding F26 to the value level (the finding itself is
 /// replayed with `false`, from KNOWN_FINDINGS.json)
 fn check_with(a: Adapter, m: &MStyle, exclude_known: bool) -> Result<bool, String> {
+    // the readings of "brightness is kept wherever the target can express it" that are accepted
+    let bright = |c: Option<MColor>| matches!(c, Some(MColor::Ansi(k)) if k >= 8);
+    let alts: Vec<u8> = match a {
+        Adapter::Termcolor if termcolor_can_keep_brightness(m) => vec![0, 1],
+        Adapter::AnsiTerm => (0..4u8).filter(|alt| (alt & 1 == 0 || bright(m.fg)) && (alt & 2 == 0 || bright(m.bg))).collect(),
+        _ => vec![0],
+    };
+    let mut first_err = None;
+    for alt in alts {
+        match check_alt(a, m, exclude_known, alt) {
+            Ok(r) => return Ok(r),
+            Err(e) => first_err = first_err.or(Some(e)),
+        }
+    }
+    Err(first_err.unwrap())
+}
+
+fn check_alt(a: Adapter, m: &MStyle, exclude_known: bool, alt: u8) -> Result<bool, String> {
     let style = to_style(*m);
-    let want = projection(a, m);
+    let want = projection(a, m, alt);
     macro_rules! layer {
         ($conv:expr, $expect:expr, $render:expr, $skip_render:expr) => {{
             let got = $conv;
@@ -373,7 +418,7 @@ fn check_with(a: Adapter, m: &MStyle, exclude_known: bool) -> Result<bool, Strin
         }};
     }
     Ok(match a {
-        Adapter::AnsiTerm => layer!(anstyle_ansi_term::to_ansi_term(style), expect_ansi_term(m), render_ansi_term, false),
+        Adapter::AnsiTerm => layer!(anstyle_ansi_term::to_ansi_term(style), expect_ansi_term(m, alt), render_ansi_term, false),
         Adapter::Crossterm => layer!(anstyle_crossterm::to_crossterm(style), expect_crossterm(m), render_crossterm, false),
         Adapter::Owo => {
             // owo-colors 4.0.0 (the version in the lock file, and admitted by the adapter's
@@ -383,7 +428,7 @@ fn check_with(a: Adapter, m: &MStyle, exclude_known: bool) -> Result<bool, Strin
             let defect = exclude_known && m.fg.is_none() && m.bg.is_some() && m.effects & CLASSIC != 0;
             layer!(anstyle_owo_colors::to_owo_style(style), expect_owo(m), render_owo, defect)
         }
-        Adapter::Termcolor => layer!(anstyle_termcolor::to_termcolor_spec(style), expect_termcolor(m), render_termcolor, false),
+        Adapter::Termcolor => layer!(anstyle_termcolor::to_termcolor_spec(style), expect_termcolor(m, alt), render_termcolor, false),
         Adapter::Yansi => layer!(anstyle_yansi::to_yansi_style(style), expect_yansi(m), render_yansi, false),
     })
 }
@@ -458,7 +503,7 @@ fn check_syntect(fg: (u8, u8, u8, u8), bg: (u8, u8, u8, u8), font: u8) -> Result
 
 fn run(args: &Args, rep: &mut Report) {
     let tier = args.tier;
-    rep.assume("what each target library can express is an explicit table in this check (projection()), taken from the public API of the library versions in the lock file: crossterm - the eight classic effects, the four further underline kinds and an underline colour; termcolor - bold/dim/italic/underline/strikethrough, brightness not required (one `intense` flag for both grounds); ansi_term - bright foreground = hue + bold, bright background = hue");
+    rep.assume("what each target library can express is an explicit table in this check (projection()), taken from the public API of the library versions in the lock file: crossterm - the eight classic effects, the four further underline kinds and an underline colour; termcolor - bold/dim/italic/underline/strikethrough, brightness either dropped or kept through the one `intense` flag where that alters no hue; ansi_term - a bright colour either as hue (+ bold for a foreground) or exactly as Fixed(8+k)");
     rep.assume("styles with a background, no foreground and one of the eight classic effects are decided at value level only for owo-colors: the pinned owo-colors 4.0.0 renders them without the ';' separator (open known finding F26, replayed separately)");
     let colors = all_colors();
     let n = rt::workers();
